@@ -203,7 +203,7 @@ def rule_shared_table(rep: Report, rid="C15.shared") -> None:
            found=f"{inspected} in-place change(s) on other objects inspected in {len(trees)} normal forms")
 
 
-def rule_header(rep: Report, rid="C05.header") -> None:
+def rule_header(rep: Report, rid="C05.header", snapshot=False) -> None:
     rep.used_file(mr.MFILE)
     kw = dict(file=mr.MFILE, function=mr.MQ)
     want = r"^\s*#\s*language\s*:\s*([a-zA-Z\-_]+)\s*$"
@@ -253,10 +253,22 @@ def rule_header(rep: Report, rid="C05.header") -> None:
             seq = list(parts[1]) if parts[0] == "cat" else [parts]
             names_it = bool(seq) and seq[-1][0] == "call" and seq[-1][1] == ".group" and len(seq) >= 2 and is_const(seq[-2]) \
                 and str(seq[-2][1]).endswith("Language not supported: ")
-        if isinstance(o, HInst) and o.cls.name == "NoSuchLanguageException" and loc == ("attr", m.tok, "location") and names_it:
+        tokloc = ("attr", m.tok, "location")
+        lo = I.obj(loc) if loc is not None else None
+        # a shallow copy (dict(x) / x.copy() / {**x}): a new object holding exactly x's content
+        is_copy = lo is not None and ((hasattr(lo, "entries") and list(lo.entries) == [("**", tokloc)]) or
+                                      (hasattr(lo, "segs") and list(lo.segs) == [("s", tokloc)]))
+        if isinstance(o, HInst) and o.cls.name == "NoSuchLanguageException" and (loc == tokloc or is_copy) and names_it:
             good += 1
+            # the header line is matched again right after the failed language match (it is also a comment), and a successful
+            # match rewrites the token's location dictionary in place (column 1 for comments): an error that merely refers to
+            # that dictionary changes position after it was reported
+            if snapshot:
+              rep.ob(rid, "the unknown-dialect error keeps its own snapshot of the header's location (the token is re-matched as a comment, which rewrites "
+                          "the token's location in place)", is_copy, **mr._kw(m, n[-1] if isinstance(n[-1], int) else None),
+                     expected="a copy of token.location taken after the column was set", found="the token's own location dictionary (alias)" if loc == tokloc else fmt(loc, I))
     rep.ob(rid, "an unknown dialect is reported as NoSuchLanguageException naming it, at the header token's location", good == 1 and len(raises) == 1, **mr._kw(m),
-           expected="raise NoSuchLanguageException(name, token.location)", found=f"{len(raises)} raise(s), {good} as specified")
+           expected="raise NoSuchLanguageException(name, <the header token's location>)", found=f"{len(raises)} raise(s), {good} as specified")
     # grammar position: #Language only at the very top
     pt = ptable()
     rep.used_file(PARSER_FILE)
